@@ -9,7 +9,7 @@
   directions are not compared), netlist
   name / top / comments / `.clock`.
 -/
-import Spydr.Eblif.DefsMain
+import Spydr.Eblif.DefsDir
 
 namespace Spydr.Eblif
 
@@ -105,7 +105,9 @@ example : (kidsFull exAny "t").map (·.2) = [3, 2, 0, 1] ∧ CoversNF exAny ∧ 
 
 /-- **the interfaces of the instantiated definitions survive write-then-read**: for every child, the
     definition it instantiates has in the re-read netlist exactly the (port, bit) pairs it has in `n`
-    (same port names, same widths).  Extra hypotheses, all decidable: the pin mirror of `n` (what
+    (same port names, same widths); the generated definitions come back with their standard port
+    lists, directions included (`logic-gate_k`: in_0..in_{k-1} IN, out OUT; `generic-latch`: the first a
+    of input, output, type, control, init-val).  Extra hypotheses, all decidable: the pin mirror of `n` (what
     `pin_mirror` proves for every netlist the reader produces), `LatchSep n t` (`generic-latch` is
     instantiated by `.latch` children only), `BBWide` (ports of black-box definitions have a pin).
     This holds for the REPAIRED reader (`parse_subcircuit_port` gives a port pins up to the formal's
@@ -114,9 +116,25 @@ example : (kidsFull exAny "t").map (·.2) = [3, 2, 0, 1] ∧ CoversNF exAny ∧ 
 theorem eblif_roundtrip_leaf_ports (o : Opts) (n : BNet) (t : String) (hw : WellNamed n) (hf : FragFull n t)
     (hn : NetOKA n t) (hnm : NamesOK o n) (hbp : BBPlain n t) (hpm : n.PinMirror) (hdg : LatchSep n t)
     (hbw : BBWide n t) (n' : BNet) (h : readB (composeText o n) = Except.ok n') :
-    ∀ k ∈ kidsFull n t, ∀ pn b,
-      (pn, b) ∈ allPins (n'.findDef k.1.model) ↔ (pn, b) ∈ allPins (n.findDef k.1.model) :=
+    (∀ k ∈ kidsFull n t, ∀ pn b,
+      (pn, b) ∈ allPins (n'.findDef k.1.model) ↔ (pn, b) ∈ allPins (n.findDef k.1.model)) ∧
+    (∀ k ∈ kidsFull n t, k.1.typ = "EBLIF.names" →
+      (n'.findDef k.1.model).ports = stdNamesPorts (k.1.pins.length - 1)) ∧
+    (∀ k ∈ kidsFull n t, k.1.typ = "EBLIF.latch" →
+      ∃ a, a ≤ 5 ∧ (n'.findDef "generic-latch").ports = stdLatchPorts.take a) :=
   roundtrip_leaf_ports o n t hw hf hn hnm hbp hpm hdg hbw n' h
+
+/-- **directions of the definitions `.subckt` / `.gate` children instantiate**: in the re-read netlist
+    every port of such a definition has the direction `leafDir` gives its name -- with a black-box
+    block written (`write_blackbox` on and the definition among `bbDefs`): OUT for the OUT ports of
+    `n`'s definition, IN for its IN ports, UNDEFINED for the others; without one: UNDEFINED.  (So IN /
+    OUT directions of black boxes survive exactly when their block is written; INOUT does not.) -/
+theorem eblif_roundtrip_leaf_dirs (o : Opts) (n : BNet) (t : String) (hw : WellNamed n) (hf : FragFull n t)
+    (hn : NetOKA n t) (hnm : NamesOK o n) (hbp : BBPlain n t) (hpm : n.PinMirror) (hdg : LatchSep n t)
+    (n' : BNet) (h : readB (composeText o n) = Except.ok n') :
+    ∀ k ∈ kidsFull n t, (k.1.typ = "EBLIF.subckt" ∨ k.1.typ = "EBLIF.gate") →
+      ∀ p ∈ (n'.findDef k.1.model).ports, p.dir = leafDir o n t k.1.model p.name :=
+  roundtrip_leaf_dirs o n t hw hf hn hnm hbp hpm hdg n' h
 
 set_option maxRecDepth 100000 in
 set_option maxHeartbeats 4000000 in
